@@ -617,4 +617,74 @@ theorem run_bands (floor : α → Int) : ∀ (names : List (List String)) (s : R
         exact (List.nodup_cons.1 hnd).1 (e' ▸ hm)
 
 end compute
+
+/-! what the calls other than `computeAggregates` leave of the bands (`setNoDataValue`, `addAFMap`, `addCollectionToRaster`) -/
+section keep
+variable {α : Type} [Field α] [LinearOrder α] [IsStrictOrderedRing α] [FloorRing α]
+
+theorem fresh_band (s : RState α) (name : List String) (g : Option (List (List (Option α))))
+    (hany : s.bands.any (fun b => b.name == name) = false) :
+    ∀ b ∈ [(⟨name, g⟩ : Band α)], ∀ b' ∈ s.bands, b.name ≠ b'.name := by
+  intro b hb b' hb' e
+  rw [List.any_eq_false] at hany
+  simp only [List.mem_singleton] at hb
+  subst hb
+  have e' : b'.name = name := e.symm
+  exact hany b' hb' (by simp [e'])
+
+theorem addBand_bands (s : RState α) (name : List String) (init : Option (List (List (Option α)))) :
+    (addBand s name init).1.noData = s.noData ∧
+    ∃ extra, (addBand s name init).1.bands = s.bands ++ extra ∧ ∀ b ∈ extra, ∀ b' ∈ s.bands, b.name ≠ b'.name := by
+  unfold addBand
+  split
+  · exact ⟨rfl, [], by simp, by simp⟩
+  · split
+    · exact ⟨rfl, [], by simp, by simp⟩
+    · rename_i _ hany
+      have hany' : s.bands.any (fun b => b.name == name) = false := by simpa using hany
+      split
+      · exact ⟨rfl, [⟨name, none⟩], rfl, fresh_band s name none hany'⟩
+      · exact ⟨rfl, [], by simp, by simp⟩
+      · split
+        · exact ⟨rfl, [], by simp, by simp⟩
+        · rename_i r0 rest _
+          exact ⟨rfl, [⟨name, some (r0 :: rest)⟩], rfl, fresh_band s name _ hany'⟩
+
+/-- a call other than `computeAggregates` keeps every band as it is (name and grid), in place; `addAFMap` appends a band
+    whose name is not taken -/
+theorem step_keeps_bands (floor : α → Int) (s : RState α) (c : Cmd α) (h : c.isCompute = false) :
+    ∃ extra, (step floor s c).1.bands = s.bands ++ extra ∧ ∀ b ∈ extra, ∀ b' ∈ s.bands, b.name ≠ b'.name := by
+  cases c with
+  | band name init => exact (addBand_bands s name init).2
+  | add afo T => exact ⟨[], by simp [step, (addColl_g floor s afo T).2], by simp⟩
+  | compute => simp [Cmd.isCompute] at h
+  | setNoData v => exact ⟨[], by simp [step], by simp⟩
+
+theorem run_keeps_bands (floor : α → Int) : ∀ (cmds : List (Cmd α)) (s : RState α), (∀ c ∈ cmds, c.isCompute = false) →
+    ∃ extra, (run floor s cmds).1.bands = s.bands ++ extra ∧ ∀ b ∈ extra, ∀ b' ∈ s.bands, b.name ≠ b'.name := by
+  intro cmds
+  induction cmds with
+  | nil => intro s _; exact ⟨[], by simp [run_nil], by simp⟩
+  | cons c rest ih =>
+    intro s h
+    obtain ⟨e1, h1, n1⟩ := step_keeps_bands floor s c (h c List.mem_cons_self)
+    obtain ⟨e2, h2, n2⟩ := ih (step floor s c).1 (fun c' hc' => h c' (List.mem_cons_of_mem _ hc'))
+    refine ⟨e1 ++ e2, ?_, ?_⟩
+    · rw [run_cons]; simp only; rw [h2, h1, List.append_assoc]
+    · intro b hb b' hb'
+      rcases List.mem_append.1 hb with hb | hb
+      · exact n1 b hb b' hb'
+      · exact n2 b hb b' (by rw [h1]; exact List.mem_append_left _ hb')
+
+theorem getBand_append (s s' : RState α) (extra : List (Band α)) (h : s'.bands = s.bands ++ extra) (name : List String) (b : Band α)
+    (hb : getBand s name = some b) : getBand s' name = some b := by
+  unfold getBand at *
+  rw [h, List.find?_append, hb]; rfl
+
+/-- the last `setNoDataValue` of a sequence of calls decides the raster's no-data value -/
+theorem run_setNoData_last (floor : α → Int) (cmds : List (Cmd α)) (s : RState α) (v : Option α) :
+    (run floor s (cmds ++ [.setNoData v])).1.noData = v := by
+  rw [run_append]; rfl
+
+end keep
 end TV.Raster
